@@ -1,5 +1,5 @@
 import LexVerif.Props.C13
-import LexVerif.Proof.SepLocal4
+import LexVerif.Proof.SepGen10
 /-!
 # C13 (continued) — `strip_preserves` beyond the all-I+L+T+C class
 
@@ -25,29 +25,68 @@ many-digits path (`Proof.Sep.Rescan`; false for I+T+C, the recorded defect `C13-
 namespace LexVerif.Props.C13
 open LexVerif LexVerif.Model LexVerif.Spec LexVerif.Proof.Sep
 
+instance (c : Cfg) (l : List Nat) : Decidable (NoSep c l) := by unfold NoSep; infer_instance
+
 /-- **R1, general form** (see the module docstring) -/
 theorem strip_preserves_gen (c : Cfg) (o : POpts) (hG : GenStrip c o) (hresI : Rescan c .integer)
     (hresF : Rescan c .fraction) (hstab : PeekStable c .integer) (s : List Nat) (hb : ∀ x ∈ s, x < 256) (fv : Bool)
     (n : Number) (cnt : Nat) (f : Fmt) (h : parseFloatSyntax c o false s fv = .ok (.number n cnt)) :
-    ∃ n', parseFloatSyntax c o false (nonSep c s) fv = .ok (.number n' (nonSep c s).length) ∧ NumRel c n n' :=
-  parseFloatSyntax_strip_gen c o hG hresI hresF hstab s hb fv n cnt h
+    ∃ n', parseFloatSyntax c o false (nonSep c s) fv = .ok (.number n' (nonSep c s).length) ∧ NumRel c n n' ∧
+      numberBits c f n' = numberBits c f n := by
+  obtain ⟨n', h1, h2, h3⟩ := parseFloatSyntax_strip_gen c o hG hresI hresF hstab s hb fv n cnt h
+  exact ⟨n', h1, h2, numberBits_of_numRel c o hG f n n' h2 h3⟩
 
 /-- **R1 for the mixed class**: the integer and the fraction component each have no separator flag or all four; the
 exponent component may have any flag combination. An input the complete parser accepts as a number is accepted as the
 same number after deleting the separators. -/
 theorem strip_preserves_mix (c : Cfg) (o : POpts) (hG : GenStrip c o) (hM : MixOK c) (s : List Nat)
-    (hb : ∀ x ∈ s, x < 256) (fv : Bool) (n : Number) (cnt : Nat)
+    (hb : ∀ x ∈ s, x < 256) (fv : Bool) (n : Number) (cnt : Nat) (f : Fmt)
     (h : parseFloatSyntax c o false s fv = .ok (.number n cnt)) :
-    ∃ n', parseFloatSyntax c o false (nonSep c s) fv = .ok (.number n' (nonSep c s).length) ∧ NumRel c n n' :=
-  parseFloatSyntax_strip_mix c o hG hM s hb fv n cnt h
+    ∃ n', parseFloatSyntax c o false (nonSep c s) fv = .ok (.number n' (nonSep c s).length) ∧ NumRel c n n' ∧
+      numberBits c f n' = numberBits c f n := by
+  obtain ⟨n', h1, h2, h3⟩ := parseFloatSyntax_strip_mix c o hG hM s hb fv n cnt h
+  exact ⟨n', h1, h2, numberBits_of_numRel c o hG f n n' h2 h3⟩
 
 /-- **R1 for every class but I+T+C**: any of the 15 `peek` variants (no flag, I, L, T, I+L, I+T, L+T, I+L+T, and these
 with C) on the integer and fraction component except I+T+C; any of the 15 on the exponent component. -/
 theorem strip_preserves_all (c : Cfg) (o : POpts) (hG : GenStrip c o) (hI : c.skip .integer ≠ .pred .itc)
     (hF : c.skip .fraction ≠ .pred .itc) (s : List Nat) (hb : ∀ x ∈ s, x < 256) (fv : Bool) (n : Number) (cnt : Nat)
-    (h : parseFloatSyntax c o false s fv = .ok (.number n cnt)) :
-    ∃ n', parseFloatSyntax c o false (nonSep c s) fv = .ok (.number n' (nonSep c s).length) ∧ NumRel c n n' :=
-  parseFloatSyntax_strip_all c o hG hI hF s hb fv n cnt h
+    (f : Fmt) (h : parseFloatSyntax c o false s fv = .ok (.number n cnt)) :
+    ∃ n', parseFloatSyntax c o false (nonSep c s) fv = .ok (.number n' (nonSep c s).length) ∧ NumRel c n n' ∧
+      numberBits c f n' = numberBits c f n := by
+  obtain ⟨n', h1, h2, h3⟩ := parseFloatSyntax_strip_all c o hG hI hF s hb fv n cnt h
+  exact ⟨n', h1, h2, numberBits_of_numRel c o hG f n n' h2 h3⟩
+
+/-! ## Inserting separators (R3), general form -/
+
+/-- **R3, general form.** The separator-free form `nonSep c s` of `s` is accepted as a number, no run of separators in
+`s` directly precedes a sign character, and none of the digit iterators of the run over `s` stops on a separator
+(`NonStuck`: the integer iterator after `is_consumed` and after its digits, the fraction iterator, the exponent
+iterator) — then `s` is accepted as the same number, with the same value. Any separator predicates (integer /
+fraction not I+T+C, through `Rescan`). `NonStuck` is exactly what "every separator of `s` is at a position the flags
+enable" has to deliver; it holds for free for I+L+T+C components (`insert_preserves_seps`). -/
+theorem insert_preserves_gen (c : Cfg) (o : POpts) (hG : GenStrip c o) (hI : c.skip .integer ≠ .pred .itc)
+    (hF : c.skip .fraction ≠ .pred .itc) (s : List Nat) (hb : ∀ x ∈ s, x < 256) (hP : NoSepBeforeSign c s)
+    (hNS : NonStuck c o s) (fv : Bool) (n' : Number) (cnt : Nat) (f : Fmt)
+    (h : parseFloatSyntax c o false (nonSep c s) fv = .ok (.number n' cnt)) :
+    ∃ n, parseFloatSyntax c o false s fv = .ok (.number n s.length) ∧ NumRel c n n' ∧
+      numberBits c f n = numberBits c f n' := by
+  obtain ⟨n, h1, h2, h3⟩ := parseFloatSyntax_insert_gen c o hG (rescan_of_not_itc c o hG .integer (by decide) hI)
+    (rescan_of_not_itc c o hG .fraction (by decide) hF) s hb hP hNS fv n' cnt h
+  exact ⟨n, h1, h2, (numberBits_of_numRel c o hG f n n' h2 h3).symm⟩
+
+/-- **R3 when the separators sit in I+L+T+C components only** (`SepsOnlyIn`: for every digit component that is not
+I+L+T+C — whatever its flags — its part of the input contains no separator byte; `OptsOK`: the exponent character is
+no digit, no sign, not the decimal point, also up to the case folding the parser applies): separators inserted anywhere
+in the I+L+T+C components, except directly before a sign, keep the input accepted as the same number. With all three
+components I+L+T+C this is `insert_preserves` of `Props/C13.lean`; with no-flag components it is the mixed class. -/
+theorem insert_preserves_seps (c : Cfg) (o : POpts) (hG : GenStrip c o) (hO : OptsOK c o)
+    (hI : c.skip .integer ≠ .pred .itc) (hF : c.skip .fraction ≠ .pred .itc) (s : List Nat) (hb : ∀ x ∈ s, x < 256)
+    (hP : NoSepBeforeSign c s) (hS : SepsOnlyIn c o s) (fv : Bool) (n' : Number) (cnt : Nat) (f : Fmt)
+    (h : parseFloatSyntax c o false (nonSep c s) fv = .ok (.number n' cnt)) :
+    ∃ n, parseFloatSyntax c o false s fv = .ok (.number n s.length) ∧ NumRel c n n' ∧
+      numberBits c f n = numberBits c f n' :=
+  insert_preserves_gen c o hG hI hF s hb hP (nonStuck_of_sepsOnlyIn c o hG hO s hS) fv n' cnt f h
 
 /-- `GenStrip` for the concrete formats `cfgOf bits` (radix 10, `_`, STANDARD flags) with the default options -/
 theorem genStrip_cfgOf (bits : Nat) (hreach : ∀ k, (cfgOf bits).skip k ≠ .unreachable)
@@ -106,10 +145,11 @@ theorem uni_genStrip : ∀ i l t cc : Bool, (i || l || t) = true → GenStrip (c
 everything but I+T+C -/
 theorem strip_preserves_uniform (i l t cc : Bool) (h : (i || l || t) = true)
     (hitc : ¬ (i = true ∧ l = false ∧ t = true ∧ cc = true)) (s : List Nat) (hb : ∀ x ∈ s, x < 256) (fv : Bool)
-    (n : Number) (cnt : Nat) (hp : parseFloatSyntax (cUni i l t cc) {} false s fv = .ok (.number n cnt)) :
+    (n : Number) (cnt : Nat) (f : Fmt) (hp : parseFloatSyntax (cUni i l t cc) {} false s fv = .ok (.number n cnt)) :
     ∃ n', parseFloatSyntax (cUni i l t cc) {} false (nonSep (cUni i l t cc) s) fv
-        = .ok (.number n' (nonSep (cUni i l t cc) s).length) ∧ NumRel (cUni i l t cc) n n' := by
-  refine strip_preserves_all _ _ (uni_genStrip i l t cc h) ?_ ?_ s hb fv n cnt hp <;>
+        = .ok (.number n' (nonSep (cUni i l t cc) s).length) ∧ NumRel (cUni i l t cc) n n' ∧
+      numberBits (cUni i l t cc) f n' = numberBits (cUni i l t cc) f n := by
+  refine strip_preserves_all _ _ (uni_genStrip i l t cc h) ?_ ?_ s hb fv n cnt f hp <;>
   · cases i <;> cases l <;> cases t <;> cases cc <;> first
       | (simp at h; done)
       | (exfalso; exact hitc ⟨rfl, rfl, rfl, rfl⟩)
@@ -126,5 +166,41 @@ example : numIs (parseFloatSyntax (cUni true false false false) {} false
 /-- leading+trailing+consecutive (`c13_dec_uni_ltc`): `__12__.__5__e__3__` -/
 example : numIs (parseFloatSyntax (cUni false true true true) {} false
     [95,95,49,50,95,95,46,95,95,53,95,95,101,95,95,51,95,95]) 18 125 2 (some [95,95,53,95,95]) = true := by decide
+
+/-- the default options against the `cfgOf` formats: `e`/`E` is no decimal digit, no sign, not `.` -/
+theorem optsOK_cfgOf (bits : Nat) (h7 : (cfgOf bits).mantissaRadix = 10)
+    (h9 : (cfgOf bits).caseSensitiveExponent = false) : OptsOK (cfgOf bits) {} := by
+  have hm : ∀ x, matchesExp (cfgOf bits) {} x = eqIgnoreCase x 101 := by
+    intro x; simp [matchesExp, h9]
+  refine ⟨?_, by rw [hm, hm]; decide, by rw [hm]; decide⟩
+  intro x hx
+  rw [hm] at hx
+  have hx2 : x = 101 ∨ x = 69 := by
+    simp only [eqIgnoreCase, lowerAscii, decide_eq_true_eq] at hx
+    split at hx <;> simp at hx <;> omega
+  rw [h7]
+  rcases hx2 with rfl | rfl <;> decide
+
+/-- non-vacuity of `insert_preserves_seps`, mixed class `cMixA` (integer: no flag, fraction: I+L+T+C, exponent:
+internal only): `12._3__4_e10` — separators in the fraction only; its stripped form `12.34e10` is accepted -/
+example : GenStrip cMixA {} ∧ OptsOK cMixA {} ∧ cMixA.skip .integer ≠ .pred .itc ∧ cMixA.skip .fraction ≠ .pred .itc ∧
+    NoSepBeforeSign cMixA [49,50,46,95,51,95,95,52,95,101,49,48] ∧
+    SepsOnlyIn cMixA {} [49,50,46,95,51,95,95,52,95,101,49,48] ∧
+    numIs (parseFloatSyntax cMixA {} false (nonSep cMixA [49,50,46,95,51,95,95,52,95,101,49,48])) 8 1234 8
+      (some [51,52]) = true :=
+  ⟨mixA_genStrip, optsOK_cfgOf 0x496 (by decide) (by decide), by decide, by decide,
+   noSepBeforeSign_of_B _ _ (by decide), ⟨by decide, by decide, by decide⟩, by decide⟩
+
+/-- … and indeed `12._3__4_e10` itself is accepted with the same mantissa / exponent -/
+example : numIs (parseFloatSyntax cMixA {} false [49,50,46,95,51,95,95,52,95,101,49,48]) 12 1234 8
+    (some [95,51,95,95,52,95]) = true := by decide
+
+/-- a separator in the part of a component that is not I+L+T+C violates `SepsOnlyIn` — and is indeed rejected:
+`1_2.34` under `cMixA` (integer without flags) -/
+example : ¬ SepsOnlyIn cMixA {} [49,95,50,46,51,52] ∧
+    (parseFloatSyntax cMixA {} false [49,95,50,46,51,52]).toBool = false := by
+  refine ⟨fun h => ?_, by decide⟩
+  have := h.int (by decide) 95 (by decide)
+  revert this; decide
 
 end LexVerif.Props.C13
